@@ -133,4 +133,26 @@ O(id='asn_put_aligned_flush', props=['C02', 'C06', 'C07'], kind='width', entry='
 O(id='bits_roundtrip', props=['C01'], kind='width', entry='h_bits_roundtrip', functions=['asn_put_few_bits', 'asn_put_aligned_flush', 'asn_get_few_bits'],
   unwind=10, cbmc=['--unwindset', 'asn_put_few_bits:3,asn_get_few_bits:4'], bound='all widths 0..31 at all bit offsets 0..31, all values', min_props=40, **BD)
 
+# ---------------------------------------------------------------- L0: PER support
+PS = dict(harness='harness/h_per_support.c', units=[SK + 'per_support.c', SK + 'asn_bit_data.c'], include=[], backends=['sat'],
+          cbmc=['--unwindset', 'asn_put_few_bits:3,asn_get_few_bits:4,uper_get_constrained_whole_number:4,uper_put_constrained_whole_number_u:4'])
+O(id='per_long_range_rebase', props=['C01', 'C02', 'C08'], kind='width', entry='h_long_range', functions=['per_long_range_rebase', 'per_long_range_unrebase', 'per__long_range'],
+  proves=['per_long_range_rebase'], unwind=2, bound='all triples of long (loop-free)', min_props=10, **PS)
+O(id='per_long_range_unrebase', props=['C01', 'C04'], kind='width', entry='h_long_unrebase', functions=['per_long_range_unrebase'],
+  proves=['per_long_range_unrebase'], unwind=2, bound='all (unsigned long, long, long) triples (loop-free)', min_props=10, **PS)
+O(id='uper_length', props=['C01', 'C02', 'C03'], kind='width', entry='h_uper_length', functions=['uper_put_length', 'uper_get_length'],
+  proves=['uper_put_length'], unwind=34, bound='all 2^64 lengths at all bit alignments (loop-free code; harness field reader unwound)', min_props=30, **PS)
+O(id='uper_length_constrained', props=['C01', 'C02'], kind='width', entry='h_uper_length_constrained', functions=['uper_get_length'],
+  unwind=34, bound='all effective-bit widths 0..16', min_props=30, **PS)
+O(id='uper_get_length.any', props=['C04', 'C15'], kind='width', entry='h_uper_get_length_any', functions=['uper_get_length'],
+  proves=['uper_get_length'], unwind=34, bound='every 32-bit input window at every offset', min_props=30, **PS)
+O(id='uper_nsnnwn', props=['C01', 'C02'], kind='width', entry='h_nsnnwn', functions=['uper_put_nsnnwn', 'uper_get_nsnnwn'],
+  proves=['uper_put_nsnnwn', 'uper_get_nsnnwn'], unwind=34, bound='all int values, all alignments', min_props=30, **PS)
+O(id='uper_nslength', props=['C01', 'C02'], kind='width', entry='h_nslength', functions=['uper_put_nslength', 'uper_get_nslength'],
+  proves=['uper_put_nslength', 'uper_get_nslength'], unwind=34, bound='all size_t lengths, all alignments', min_props=30, **PS)
+O(id='uper_cwn.le31', props=['C01', 'C02'], kind='width', entry='h_cwn', functions=['uper_put_constrained_whole_number_u', 'uper_get_constrained_whole_number'],
+  proves=['uper_put_constrained_whole_number_u', 'uper_get_constrained_whole_number'], unwind=34, bound='all values, widths 0..31, all alignments', min_props=30, **PS)
+O(id='uper_cwn.gt31', props=['C01', 'C02'], kind='width', entry='h_cwn', functions=['uper_put_constrained_whole_number_u', 'uper_get_constrained_whole_number'],
+  unwind=34, defines=['VF_CWN_WIDE'], bound='all values, widths 32..64 (octet-aligned start; alignment is the business of asn_put_few_bits)', min_props=30, timeout=600, **PS)
+
 UNVERIFIED = {}
